@@ -42,7 +42,13 @@ func (t *tr) escapes(n ast.Node) bool {
 			walk(s.Body, brk+1, cont+1)
 		case *ast.SwitchStmt:
 			walk(s.Body, brk+1, cont)
-		case *ast.TypeSwitchStmt, *ast.SelectStmt, *ast.FuncLit:
+		case *ast.SelectStmt:
+			walk(s.Body, brk+1, cont) // only the context poll is accepted (translate_io.go); a break targets the select
+		case *ast.CommClause:
+			for _, c := range s.Body {
+				walk(c, brk, cont)
+			}
+		case *ast.TypeSwitchStmt, *ast.FuncLit:
 			// rejected elsewhere
 		case *ast.BlockStmt:
 			for _, c := range s.List {
@@ -64,6 +70,8 @@ func (t *tr) escapes(n ast.Node) bool {
 	}
 	switch s := n.(type) {
 	case *ast.SwitchStmt:
+		walk(s.Body, 1, 0)
+	case *ast.SelectStmt:
 		walk(s.Body, 1, 0)
 	case *ast.ForStmt:
 		walk(s.Body, 1, 1)
@@ -122,6 +130,9 @@ func (t *tr) assignedIn(nodes ...ast.Node) []*types.Var {
 			case *ast.CallExpr:
 				if t.isYieldCall(s) != nil {
 					set[t.iter.acc] = true
+				}
+				for _, d := range t.writtenByCall(s) {
+					add(d)
 				}
 			case *ast.ExprStmt:
 				if c, ok := s.X.(*ast.CallExpr); ok {
@@ -229,8 +240,27 @@ func (t *tr) prescan(body *ast.BlockStmt) {
 					}
 				}
 			}
-		case *ast.GoStmt, *ast.DeferStmt, *ast.SelectStmt, *ast.TypeSwitchStmt, *ast.LabeledStmt:
+		case *ast.SelectStmt:
+			if _, _, ok := t.ctxPoll(s); !ok {
+				bail("statement %T (other than the non-blocking context poll) at %s", n, t.pos(n))
+			}
+		case *ast.GoStmt, *ast.DeferStmt, *ast.TypeSwitchStmt, *ast.LabeledStmt:
 			bail("statement %T at %s", n, t.pos(n))
+		}
+		if c, ok := n.(*ast.CallExpr); ok {
+			// a READ INTO destination / an in-out argument is written by the call (translate_io.go)
+			for _, d := range t.writtenByCall(c) {
+				if v := t.lvalueRoot(d); v != nil {
+					if _, isSlice := v.Type().Underlying().(*types.Slice); isSlice {
+						markWrite(v, c)
+						if t.isParam(v) {
+							t.inoutSet[v] = true // our own []byte parameter is written into: handed back to the caller
+						}
+					} else if _, isArr := v.Type().Underlying().(*types.Array); isArr {
+						markWrite(v, c)
+					}
+				}
+			}
 		}
 		return true
 	})
@@ -343,6 +373,9 @@ func (t *tr) allocOrSelfAppend(rhs ast.Expr, v *types.Var) bool {
 		}
 		if strings.HasPrefix(t.externalName(x.Fun), "encoding/binary.BigEndian.AppendUint") {
 			return t.allocOrSelfAppend(x.Args[0], v)
+		}
+		if _, isAlloc := allocators[t.calleeName(x)]; isAlloc {
+			return true
 		}
 	}
 	return false
@@ -491,6 +524,10 @@ func (t *tr) resLean() string {
 		rs = append(rs, r.lean)
 	}
 	if t.eff {
+		vs, _ := t.inoutParams()
+		for _, v := range vs {
+			rs = append(rs, t.ltVar(v, "in-out parameter "+v.Name()).lean)
+		}
 		rs = append(rs, "List Go.Effect")
 		if t.useOrc {
 			rs = append(rs, "List Go.Val")
@@ -603,6 +640,8 @@ func (t *tr) stmts(list []ast.Stmt, k func() string, ind string) string {
 		return t.exprStmt(s, list[1:], k, ind)
 	case *ast.SendStmt:
 		return t.sendStmt(s, ind) + rest()
+	case *ast.SelectStmt:
+		return t.selectStmt(s, list[1:], k, ind)
 	}
 	bail("statement %T at %s", list[0], t.pos(list[0]))
 	return ""
@@ -781,6 +820,9 @@ func (t *tr) assign(s *ast.AssignStmt, ind string) string {
 				continue
 			}
 			v := t.varOf(id)
+			if t.inoutSet[v] || t.opaqueParams[v] {
+				bail("assignment to the in-out / opaque parameter %s itself at %s", id.Name, t.pos(s))
+			}
 			vl := t.lt(v.Type(), "variable "+id.Name)
 			if vl.k != rl.k || vl.lean != rl.lean {
 				bail("multi-value assignment: result %d changes representation at %s", i, t.pos(s))
@@ -811,6 +853,9 @@ func (t *tr) assign(s *ast.AssignStmt, ind string) string {
 			continue
 		}
 		v := t.varOf(id)
+		if t.inoutSet[v] || t.opaqueParams[v] {
+			bail("assignment to the in-out / opaque parameter %s itself at %s", id.Name, t.pos(s))
+		}
 		vals = append(vals, t.rhsFor(s.Rhs[i], v.Type(), v))
 		tys = append(tys, t.lt(v.Type(), "variable "+id.Name).lean)
 		vars = append(vars, v)
@@ -848,6 +893,9 @@ func (t *tr) assign1(lhs, rhs ast.Expr, ind string) string {
 		v := t.varOf(id)
 		if v == nil || !t.isLocal(v) {
 			bail("assignment to %s, which is not a local variable, at %s", id.Name, t.pos(lhs))
+		}
+		if t.inoutSet[v] || t.opaqueParams[v] {
+			bail("assignment to the in-out / opaque parameter %s itself at %s", id.Name, t.pos(lhs))
 		}
 		if t.opaqueVars[v] {
 			// an opaque local: only its nil-ness is kept
@@ -932,17 +980,25 @@ func (t *tr) opAssign(lhs ast.Expr, tok token.Token, rhs ast.Expr, rhsText strin
 func (t *tr) store(lhs ast.Expr, val string, ind string) string {
 	root, text := t.update(lhs, val)
 	pre := t.flush(ind)
-	lt := t.lt(root.Type(), "variable "+root.Name())
+	lt := t.ltVar(root, "variable "+root.Name())
 	return pre + fmt.Sprintf("let %s : %s := %s\n%s", t.names[root], lt.lean, text, ind)
 }
 
 // update: the new value of the root variable of lvalue e after e := val.
 func (t *tr) update(e ast.Expr, val string) (*types.Var, string) {
 	switch x := ast.Unparen(e).(type) {
+	case *ast.StarExpr:
+		if id, ok := ast.Unparen(x.X).(*ast.Ident); ok && t.inoutPtr(t.varOf(id)) {
+			return t.varOf(id), val // `*p = v` on an in-out parameter (translate_io.go)
+		}
+		bail("write through a pointer at %s", t.pos(e))
 	case *ast.Ident:
 		v := t.varOf(x)
 		if v == nil || !t.isLocal(v) {
 			bail("assignment to %s, which is not a local variable, at %s", x.Name, t.pos(e))
+		}
+		if t.inoutPtr(v) || t.opaqueParams[v] {
+			bail("assignment to the parameter %s at %s", x.Name, t.pos(e))
 		}
 		if _, ok := t.names[v]; !ok {
 			bail("assignment to %s before its declaration at %s", x.Name, t.pos(e))
@@ -1017,6 +1073,9 @@ func (t *tr) checkWritable(base ast.Expr, at ast.Node) {
 	if id, ok := base.(*ast.Ident); ok {
 		if v := t.varOf(id); v != nil && t.ownedAt(v, at.Pos()) {
 			return
+		}
+		if v := t.varOf(id); v != nil && t.inoutSet[v] {
+			return // our own in-out []byte parameter: the caller handed it over and takes the value back
 		}
 	}
 	bail("write into memory that is not (or no longer) owned by this function (%s) at %s", ty, t.pos(at))
@@ -1575,10 +1634,23 @@ func (t *tr) function() {
 	if r := sig.Recv(); r != nil && r.Name() != "" && r.Name() != "_" {
 		t.recvParam = r
 	}
+	t.scanParams(sig)
 	t.prescan(fd.Body)
+	if t.fuelP || len(t.inoutSet) > 0 {
+		t.needEff()
+	}
 	var params []string
+	t.out.dropParam, t.out.inout = nil, nil
 	addParam := func(v *types.Var, what string) {
-		lt := t.lt(v.Type(), what)
+		if t.opaqueParams[v] {
+			return // not a parameter of the Lean function (translate_io.go)
+		}
+		var lt ltype
+		if t.inoutPtr(v) {
+			lt = t.lt(inoutElem(v), what)
+		} else {
+			lt = t.lt(v.Type(), what)
+		}
 		if lt.k == kOpaque {
 			bail("%s of reference type %s", what, v.Type())
 		}
@@ -1598,7 +1670,18 @@ func (t *tr) function() {
 		}
 	}
 	for i := 0; i < sig.Params().Len(); i++ {
-		addParam(sig.Params().At(i), "parameter "+sig.Params().At(i).Name())
+		v := sig.Params().At(i)
+		addParam(v, "parameter "+v.Name())
+		t.out.dropParam = append(t.out.dropParam, t.opaqueParams[v])
+		if t.inoutSet[v] {
+			if v.Name() == "" || v.Name() == "_" {
+				bail("unnamed in-out parameter")
+			}
+			t.out.inout = append(t.out.inout, i)
+		}
+	}
+	if t.fuelP {
+		params = append(params, "(fuel_ : Nat)")
 	}
 	if t.eff && t.useOrc {
 		params = append(params, "(orc_ : List Go.Val)")
@@ -1654,11 +1737,18 @@ func (t *tr) emit(params []string, res string, body string) {
 		for range t.res {
 			parts = append(parts, "result")
 		}
+		vs, _ := t.inoutParams()
+		for _, v := range vs {
+			parts = append(parts, "in-out "+v.Name())
+		}
 		parts = append(parts, "effect trace")
 		if t.useOrc {
 			parts = append(parts, "unused oracle values")
 		}
 		shape = "; effect mode: value = (" + strings.Join(parts, ", ") + ")"
+	}
+	for _, a := range t.auxDefs {
+		out.WriteString(a)
 	}
 	fmt.Fprintf(&out, "/-- translated from %s (%s)%s -/\n", t.key, filepath.Base(t.p.fset.Position(fd.Pos()).Filename), shape)
 	sep := " "
@@ -1959,4 +2049,15 @@ func (t *tr) emitWindow(params []string, res string, body string, what string, o
 	t.out.text = out.String()
 	t.out.resLean = res
 	t.out.nres = len(t.res)
+}
+
+// isParam: v is a parameter of the function being translated (not the receiver).
+func (t *tr) isParam(v *types.Var) bool {
+	sig := t.p.info.Defs[t.fd.Name].(*types.Func).Type().(*types.Signature)
+	for i := 0; i < sig.Params().Len(); i++ {
+		if sig.Params().At(i) == v {
+			return true
+		}
+	}
+	return false
 }
